@@ -23,10 +23,10 @@ type c20Case struct {
 	ESCAdvertised bool   `json:"esc_advertised"`
 	Batch         int    `json:"batch"`
 	NRcpt         int    `json:"nrcpt"`
-	Slot          int    `json:"slot"`      // message that gets the negative reply
+	Slot          int    `json:"slot"`                // message that gets the negative reply
 	SlotMask      int    `json:"slot_mask,omitempty"` // bit i: message i gets the (same) negative reply too; 0 = only Slot
-	Pos           string `json:"pos"`       // MAIL RCPT DATA DATA-END RSET
-	RcptMask      int    `json:"rcpt_mask"` // bit j: recipient j rejected (Pos == RCPT)
+	Pos           string `json:"pos"`                 // MAIL RCPT DATA DATA-END RSET
+	RcptMask      int    `json:"rcpt_mask"`           // bit j: recipient j rejected (Pos == RCPT)
 	Code          int    `json:"code"`
 	Code2         int    `json:"code2,omitempty"` // code of the last rejected recipient when several are rejected
 	TextKind      string `json:"text_kind"`       // esc none esc-elsewhere multiline esc-midline
